@@ -184,8 +184,8 @@ def monSpec (c : ImplCase) : List String :=
 def monSpecAll (c : ImplCase) : List String :=
   if !c.newOk || !readOnly c || !inboundClean c then []
   else match specVerdict c with
-    | none => ["C02", "C05", "C06", "C08"].map fun p => s!"mon {p} ok"
-    | some v => ["C02", "C05", "C06", "C08"].map fun p => s!"mon {p} FAIL {v}"
+    | none => ["C02", "C05", "C06", "C08", "C01", "C19"].map fun p => s!"mon {p} ok"
+    | some v => ["C02", "C05", "C06", "C08", "C01", "C19"].map fun p => s!"mon {p} FAIL {v}"
 
 /-! ### C03: close-handshake safety on the implementation's trace -/
 def monC03 (c : ImplCase) : List String :=
@@ -284,6 +284,7 @@ def monC10 (c : ImplCase) : List String :=
     let mut expected : List (Nat × Bytes) := []
     let mut wire : Bytes := []
     let mut bad : Option String := none
+    let mut lastPong : Option Bytes := none   -- the newest pong owed (user pong or answer to a ping)
     for o in ops do
       wire := wire ++ o.wire
       match o.body with
@@ -291,7 +292,21 @@ def monC10 (c : ImplCase) : List String :=
         let opc := if kind == "text" then 1 else if kind == "binary" then 2 else if kind == "ping" then 9 else 0
         let accepted := o.res.head? == some "ok" || (match resErr o with | some e => e.startsWith "Io." | none => false)
         if opc != 0 && accepted then expected := expected ++ [(opc, unhex h)]
+        if kind == "pong" && accepted then lastPong := some (unhex h)
+        if kind == "close" then lastPong := none
+      | "close" :: _ => lastPong := none
       | _ => pure ()
+      match o.res with
+      | ["ok", "ping", h] => if o.canW then lastPong := some (unhex h)
+      | "ok" :: "close" :: _ => lastPong := none
+      | _ => pure ()
+      if isOp o "flush" && o.res == ["ok", "unit"] && c.cfg.maxw ≥ 140 then
+        match lastPong with
+        | some p =>
+          if !(((wireFrames wire).1.filter fun f => f.opcode == 10).any fun f => f.payload == p) then
+            bad := bad <|> some "flush-ok-but-pong-unsent"
+          lastPong := none
+        | none => pure ()
       let (fs, _) := wireFrames wire
       let onWire := (fs.filter fun f => f.opcode == 1 || f.opcode == 2 || f.opcode == 9).map fun f => (f.opcode, f.payload)
       if !(onWire.length ≤ expected.length && onWire == expected.take onWire.length) then
@@ -464,7 +479,15 @@ def monC01 (c : ImplCase) : List String :=
   else if !errs.isEmpty then [s!"mon C01 FAIL unexpected-error {errs.head!}"]
   else ["mon C01 ok"]
 
+/-- re-issue a verdict under another property id -/
+def alias (ls : List String) (src dst : String) : List String :=
+  ls.filterMap fun l =>
+    if l.startsWith s!"mon {src} " then some (s!"mon {dst} " ++ (l.drop (5 + src.length)).toString) else none
+
 def all (c : ImplCase) : List String :=
-  monC07 c ++ monSpecAll c ++ monC03 c ++ monC09 c ++ monC10 c ++ monC11 c ++ monC12 c ++ monC13 c ++ monC14 c ++ monC01 c
+  let m10 := monC10 c
+  let m09 := monC09 c
+  monC07 c ++ monSpecAll c ++ monC03 c ++ m09 ++ m10 ++ monC11 c ++ monC12 c ++ monC13 c ++ monC14 c ++ monC01 c
+    ++ alias m10 "C10" "C19" ++ alias m09 "C09" "C19" ++ alias m10 "C10" "C01"
 
 end Mon
